@@ -275,10 +275,13 @@ void test_fft(uint64_t cs, int nh, int hk, int nx, int xk, int nf, bool emit, in
     out.stat(y.empty() ? "fft_blocks_0" : int(y.size()) == bs ? "fft_blocks_1" : int(y.size()) <= 4 * bs ? "fft_blocks_2_4" : "fft_blocks_5plus");
     out.stat(nx % bs == 0 ? "fft_nx_multiple_of_block" : "fft_nx_partial_block");
     if (!lenok) { out.fail("C07:fftfilter-length", cj0); return; }
-    if (emit) out.corr(std::string("fft") + tn + " " + std::to_string(stride) + " " + vh::hxs(h) + " " + frames_str(x, lens), std::to_string(bs) + outs);
     // oracle: defining sum (normwise bound over the blocks that feed output i) + equality with the direct filter
     const Stream<T> c(h, true), xs(x);
     const ld hn = c.norm2(0, nh);
+    // CORR line: block size, then the scale ||h||_2*||x||_2 (the model's FFT is a different algorithm: its outputs are
+    // compared normwise, and the largest input sample may sit in a block whose tail has not been emitted yet), then the frames
+    if (emit) out.corr(std::string("fft") + tn + " " + std::to_string(stride) + " " + vh::hxs(h) + " " + frames_str(x, lens),
+                       std::to_string(bs) + " " + vh::hx((double)(hn * xs.norm2(0, nx))) + outs);
     const int ny = y.size();
     std::vector<ld> bn;   // ||x_block||_2
     for (int b = 0; b * bs < ny; ++b) bn.push_back(xs.norm2(b * bs, (b + 1) * bs));
@@ -457,7 +460,7 @@ int main(int argc, char** argv) {
             const int nx = (j % 4 == 0) ? 100000 : rng.range(20000, 100000);
             const int hk = (j + int(a.seed)) % NHK, xk = (j / 2) % NXK;
             const int nf = (j % 2) ? rng.range(2, 6) : 1;
-            const bool emit = nh <= 33 && (TH ? j < 14 : j < 3);
+            const bool emit = nh <= 33 && (TH ? j < 8 : j < 3);
             const uint64_t cs = rng.next();
             if (j % 2) { test_fir<cmplx_t>(cs, nh, hk, nx, xk, nf, emit, 97); test_fft<cmplx_t>(cs + 1, nh, hk, nx, xk, nf, emit, 97); }
             else { test_fir<real_t>(cs, nh, hk, nx, xk, nf, emit, 97); test_fft<real_t>(cs + 1, nh, hk, nx, xk, nf, emit, 97); }
